@@ -2,6 +2,7 @@
 use lv_common::{Ctx, parse_args};
 
 mod c09;
+mod hex_client_sim;
 mod c10;
 mod c16;
 mod c17;
@@ -27,6 +28,9 @@ mod c38;
 mod c39;
 mod c40;
 mod c41;
+mod daser_sim;
+mod pruner_sim;
+mod syncer_sim;
 
 fn main() {
     let args = parse_args();
